@@ -4649,7 +4649,8 @@ def _make_segments(part):
         }
     segment_info[boundary_times[-1]] = {"ID": "END"}
 
-    current_volta_repeat_start = 0
+    # an ending that repeats without a repeat sign repeats from the beginning
+    current_volta_repeat_start = boundary_times[0]
     current_volta_end = 0
     current_volta_total_number = 0
 
